@@ -7,6 +7,11 @@ import (
 	"sort"
 )
 
+// Order, when set, chooses the iteration order: it receives the number of keys and returns a permutation of
+// 0..n-1 that is applied to the naturally ordered keys. Go leaves map iteration order unspecified, so code under test
+// must work for every order; a harness enumerates them through this hook (nil = natural order).
+var Order func(n int) []int
+
 // Keys returns the keys of m in a deterministic order (natural order for strings and
 // integers, formatted order otherwise).
 func Keys[M ~map[K]V, K comparable, V any](m M) []K {
@@ -26,6 +31,15 @@ func Keys[M ~map[K]V, K comparable, V any](m M) []K {
 		sort.Slice(ks, func(i, j int) bool { return reflect.ValueOf(ks[i]).Uint() < reflect.ValueOf(ks[j]).Uint() })
 	default:
 		sort.Slice(ks, func(i, j int) bool { return fmt.Sprint(ks[i]) < fmt.Sprint(ks[j]) })
+	}
+	if Order != nil {
+		if p := Order(len(ks)); len(p) == len(ks) {
+			out := make([]K, len(ks))
+			for i, j := range p {
+				out[i] = ks[j]
+			}
+			return out
+		}
 	}
 	return ks
 }
